@@ -277,6 +277,25 @@ func runHarness(prog *ssa.Program, fset0 interface{}, pkg *ssa.Package, name str
 	hr.Paths = e.paths
 	hr.Merges = e.merges
 	hr.ExecMs = time.Since(start).Milliseconds()
+	if os.Getenv("GOSYM_OBL_STATS") != "" {
+		cnt := map[string]int{}
+		for _, o := range e.obls {
+			cnt[o.Kind+" "+o.Site]++
+		}
+		shown := map[string]bool{}
+		for k, v := range cnt {
+			if v > 20 {
+				fmt.Fprintf(os.Stderr, "    %6d x %s\n", v, k)
+			}
+		}
+		for _, o := range e.obls {
+			k := o.Kind + " " + o.Site
+			if cnt[k] > 20 && !shown[k] {
+				shown[k] = true
+				fmt.Fprintf(os.Stderr, "      e.g. %s :: %s\n", o.ID, o.goal.Short())
+			}
+		}
+	}
 	fmt.Fprintf(os.Stderr, "  [%s] paths=%d merges=%d feasibility-queries=%d (%d ms) terms=%d\n", name, e.paths, e.merges, e.feasCalls, e.feasMs, TF.next)
 	return hr
 }
@@ -327,6 +346,14 @@ func discharge(pool *SolverPool, hr *HarnessResult, workers, timeoutMs int, dump
 	asserts := map[*Obligation][]*Term{}
 	sliced := map[*Obligation][]*Term{}
 	for _, o := range hr.Obligations {
+		for _, c := range o.pc {
+			repOf(c)
+		}
+		if o.goal != nil {
+			repOf(o.goal)
+		}
+	}
+	for _, o := range hr.Obligations {
 		as := append([]*Term(nil), o.pc...)
 		if o.Kind != "reach" {
 			ng := Not(o.goal)
@@ -349,6 +376,10 @@ func discharge(pool *SolverPool, hr *HarnessResult, workers, timeoutMs int, dump
 		go func() {
 			defer wg.Done()
 			for o := range ch {
+				if o.Kind != "reach" && o.goal.IsTrue() {
+					o.Verdict, o.Solver, o.OK = "unsat", "simplifier", true
+					continue
+				}
 				as := asserts[o]
 				if d := os.Getenv("GOSYM_DUMP_ALL"); d != "" {
 					os.MkdirAll(d, 0755)
